@@ -94,16 +94,21 @@ def c17_ages(kw):
         if raised:
             return "ultrametricity-error-although-check-disabled-or-forced"
         if force:
+            dev = 0       # (sums of absolute deviations: fork-free terms, one comparison at the end)
+            leafdev = 0
             for nd in nodes:
                 if nd._child_nodes:
                     vals = [c.age + c._edge.length for c in nd._child_nodes]
                     m = vals[0]
                     for v in vals[1:]:
                         m = smax(m, v) if force == 1 else smin(m, v)
-                    if nd.age != m:
-                        return "forced-age-not-max-or-min-over-children"
-                elif nd.age != 0:
-                    return "leaf-age-not-zero"
+                    dev = dev + abs(nd.age - m)
+                else:
+                    leafdev = leafdev + abs(nd.age)
+            if dev != 0:
+                return "forced-age-not-max-or-min-over-children"
+            if leafdev != 0:
+                return "leaf-age-not-zero"
         return True
     if spread > eps:
         if not raised:
@@ -112,10 +117,12 @@ def c17_ages(kw):
     # all root-to-tip path lengths agree within eps
     if raised:
         return "ultrametric-tree-rejected"
+    worst = 0
     for nd in nodes:
         for d in tip_distances(nd):
-            if abs(nd.age - d) > eps:
-                return "age-not-within-precision-of-tip-distance"
+            worst = smax(worst, abs(nd.age - d))
+    if worst > eps:
+        return "age-not-within-precision-of-tip-distance"
     return True
 
 
